@@ -52,6 +52,7 @@ pub fn all() -> Vec<Regression> {
         Regression { name: "D33-dopri5-naccpt-at-probably-stiff", property: "C18", what: "DOPRI5 on y'=-2000(y-cos t) ends with ProbablyStiff: naccpt must equal the number of reported intervals", f: d33 },
         Regression { name: "D34-rk23-xout-interpolant", property: "C07", what: "RK23 built with dense_output(false): the interpolant obtained through XOut must reproduce the step's end state (was all zeros)", f: d34 },
         Regression { name: "D35-sol-range-rounding", property: "C06", what: "sol(t) and sol_many must succeed at every reported time (RK23, lin3 on [0, 0.38688] and [0, 0.4461], rtol 1e-2: last time one ulp beyond the last segment)", f: d35 },
+        Regression { name: "D36-radau-min-step-longer-than-interval", property: "C04", what: "Radau with min_step = 1e-3 on [0, 5e-4] (both directions) must return, not panic", f: d36 },
         Regression { name: "D16-rk4-dense-order", property: "C07", what: "RK4 cubic Hermite dense output must be O(h^4) inside a step", f: d16 },
     ]
 }
@@ -595,6 +596,24 @@ fn d28() -> Result<(), String> {
     for w in s.t.windows(2) {
         if !(w[1] > w[0]) {
             return Err(format!("t not strictly increasing: {:e} then {:e}", w[0], w[1]));
+        }
+    }
+    Ok(())
+}
+
+fn d36() -> Result<(), String> {
+    let p0 = base(Base::Decay(-1.0));
+    for dirn in [1.0, -1.0] {
+        let p = if dirn < 0.0 { crate::problems::reflect(&p0) } else { p0.clone() };
+        for m in [Method::RADAU, Method::BDF] {
+            let mut c = Cfg::new(m, 0.0, dirn * 5e-4, &p.y0);
+            c.min_step = Some(1e-3);
+            let r = run(&p, &c);
+            match &r.out {
+                Outcome::Panic(msg) => return Err(format!("{} on [0,{:e}] with min_step 1e-3 panicked: {}", mname(m), dirn * 5e-4, msg)),
+                Outcome::Budget => return Err(format!("{}: no return", mname(m))),
+                _ => {}
+            }
         }
     }
     Ok(())
